@@ -102,6 +102,16 @@ Theorem C17_oracle_rotate_late : forall m init n s,
 Proof. exact oracle_rotate_late_model. Qed.
 Print Assumptions C17_oracle_rotate_late.
 
+(* ... and the same for a caller any number k >= 1 of rotations behind, on the meta data the harness builds (all three tail
+   counters carry the term ids a log at term count n+k has): the active partition is never rewound *)
+Theorem C17_oracle_rotate_late_k : forall m init n k o0 o1 o2,
+  in_i32 init = true -> 0 <= n -> 1 <= k -> n + k < two31 - 1 ->
+  0 <= o0 < two32 -> 0 <= o1 < two32 -> 0 <= o2 < two32 ->
+  let s := c17_meta init (n + k) o0 o1 o2 in
+  holds_rotate_late s (rotate_log m s n (wrap32 (init + n))) = true.
+Proof. exact oracle_rotate_late_k_model. Qed.
+Print Assumptions C17_oracle_rotate_late_k.
+
 (* Publication::position(): the term id and the offset are cut out of the raw tail counter; the offset is clamped to
    the term length, so a tail that has overshot the term (tripped append, rotation pending, or the last term) never
    yields a position past the term end / the end of the position space. *)
